@@ -338,6 +338,12 @@ def rule_defwrite(ctx: Ctx):
     for c_ in ctx.p.classes.values():
         if c_.module.rel.endswith("contrib/diagram.py"):
             roots.extend(m for ms in c_.methods.values() for m in ms)
+    # special methods introduced after the analysed baseline are called implicitly (dir(), len(), ==, iteration, copy ...): the call graph
+    # has no edge for that, so each one is an entry point of its own when its class is used at instance time
+    for f in ctx.p.all_functions():
+        if f.cls is not None and f.parent is None and f.name.startswith("__") and f.name.endswith("__") and ctx.is_new(f) \
+                and f.cls.name != "StateMachineMetaclass" and f.name not in ("__init__", "__new__", "__post_init__", "__init_subclass__", "__set_name__"):
+            roots.append(f)
     # reachability that does not descend into constructors of definition classes: what they build is a
     # fresh object (e.g. the initial pseudo-transition), not a shared definition
     reach = set()
@@ -483,4 +489,59 @@ def rule_own_arguments(ctx: Ctx):
     c07.rule_layer(ctx, rule="C16.args")
 
 
-RULES = [rule_inventory, rule_cachekey, rule_fresh, rule_inherit, rule_defwrite, rule_own_arguments]
+def rule_no_process_wide_memo(ctx: Ctx):
+    """C16.inventory: a memoising decorator is applied once, when the module is imported: what it remembers is shared by
+    every machine, class and definition of the process.  No function of the package gains one."""
+    from ..wrappers import check_fresh
+
+    fns = [f for f in ctx.p.all_functions() if getattr(f.node, "decorator_list", None)]
+    check_fresh(ctx, "C16.inventory", fns, "behaviour depends only on the instance's own definition, model, listeners and history")
+
+
+def rule_no_hidden_instance_state(ctx: Ctx, rule: str = "C16.fresh"):
+    """Nothing is slipped into an object's `__dict__` behind its class's back: `__getstate__` hands `self.__dict__.copy()` to
+    copy/pickle, so an object stored there under a computed key - and tied to the instance it is stored on (built with
+    that instance as an argument, like a BoundEvent) - travels into every shallow copy, which then drives the original.
+    The only whole-dict write of the package is `__setstate__` restoring its own saved state."""
+    rep = ctx.rep
+    n = 0
+    for fn in ctx.p.all_functions():
+        if isinstance(fn.node, ast.Lambda):
+            continue
+        for node in own_nodes(fn.node):
+            recv = key = val = None
+            if isinstance(node, ast.Assign) and len(node.targets) == 1 and isinstance(node.targets[0], ast.Subscript):
+                t = node.targets[0]
+                if isinstance(t.value, ast.Attribute) and t.value.attr == "__dict__":
+                    recv, key, val = t.value.value, t.slice, node.value
+                elif isinstance(t.value, ast.Call) and show(t.value.func) == "vars" and t.value.args:
+                    recv, key, val = t.value.args[0], t.slice, node.value
+            elif isinstance(node, ast.Call) and isinstance(node.func, ast.Attribute) and node.func.attr in ("update", "setdefault", "__setitem__") \
+                    and isinstance(node.func.value, ast.Attribute) and node.func.value.attr == "__dict__":
+                recv, key, val = node.func.value.value, None, (node.args[-1] if node.args else None)
+                if fn.name == "__setstate__" and show(recv) == fn.params[0] and node.func.attr == "update":
+                    rep.ok(rule, fn.loc(node), f"{fn.qualname} restores its own saved state")
+                    n += 1
+                    continue
+            if recv is None:
+                continue
+            n += 1
+            # what is stored: follow a local back to its assignment in this function
+            v = val
+            if isinstance(v, ast.Name):
+                for m in own_nodes(fn.node):
+                    if isinstance(m, ast.Assign) and any(isinstance(t_, ast.Name) and t_.id == v.id for t_ in m.targets):
+                        v = m.value
+            rtxt = show(recv)
+            tied = v is not None and any(isinstance(c, ast.Call) and any(show(a) == rtxt for a in list(c.args) + [k.value for k in c.keywords])
+                                         for c in ast.walk(v))
+            if tied:
+                rep.violation(rule, fn.loc(node), f"{fn.qualname} stores an object built around `{rtxt}` into `{rtxt}.__dict__`"
+                              f"{'' if key is None else ' under a computed key'}: __getstate__ copies the dict as is, so a shallow copy of the "
+                              "instance keeps an object that drives the original", fn.key, norm_stmt(node))
+            else:
+                rep.unrecognised(rule, fn.loc(node), f"{fn.qualname} writes `{rtxt}.__dict__` directly")
+    rep.ok(rule, "package", "no object tied to an instance is stored into that instance's __dict__ behind __getstate__'s back", sites=n)
+
+
+RULES = [rule_inventory, rule_cachekey, rule_fresh, rule_inherit, rule_defwrite, rule_own_arguments, rule_no_process_wide_memo, rule_no_hidden_instance_state]
